@@ -436,7 +436,9 @@ class Library:
         flat = []
         for p in parts:
             flat.extend(p.parts if isinstance(p, PartialLabel) else [p])
-        parts = flat
+        parts = [p for p in flat if not (isinstance(p, str) and p == '')]
+        if len(parts) == 1 and isinstance(parts[0], Sym) and parts[0].is_label():
+            return parts[0]           # '' + label  is the label itself
         has_uuid = any(isinstance(p, UuidHex) for p in parts)
         has_label = any(isinstance(p, Sym) and p.is_label() for p in parts)
         if has_uuid:
